@@ -177,7 +177,7 @@ def uninit_read(ctx, out):
 
 def proc_state(ctx):
     if not hasattr(ctx, 'proc'):
-        ctx.proc = {'role': 'no-fork', 'children': 0, 'status': None, 'waits': 0, 'forks': 0, 'entered': []}
+        ctx.proc = {'role': 'no-fork', 'children': 0, 'status': None, 'waits': 0, 'forks': 0, 'entered': [], 'stack': [], 'ann': {}}
     return ctx.proc
 
 
@@ -205,6 +205,14 @@ def make_interp(P, unit, opaque=(), extra_models=None, loop_limit=1, globals_=No
         if st['children'] <= 0:
             ctx.note('%s()=-1 [no child]' % name)
             return -1
+        if name == 'waitpid':
+            opts = args[2] if len(args) > 2 else 0
+            if not isinstance(opts, int):
+                raise AnalysisBroken('waitpid options %r not understood (%s:%d)' % (opts, it.unit.name, n.line))
+            if opts & 1:    # WNOHANG: the child may still be running
+                if ctx.choose(2, 'waitpid WNOHANG') == 1:
+                    ctx.note('waitpid(WNOHANG)=0 [child still running]')
+                    return 0
         st['children'] -= 1
         i = ctx.choose(len(STATUSES), 'wait status')
         cls, val = STATUSES[i]
@@ -269,7 +277,32 @@ def make_interp(P, unit, opaque=(), extra_models=None, loop_limit=1, globals_=No
         st['entered'].append((fn.name, st['role']))
         return orig_call(unit_, fn, args)
     it.call_fn = call_fn
+    orig_callexpr = it.e_CallExpr
+
+    def e_CallExpr(n, env):
+        ctx = it.ctx
+        st = proc_state(ctx)
+        st['stack'].append((n.callee(), n.line))
+        k = len(ctx.events)
+        try:
+            return orig_callexpr(n, env)
+        finally:
+            st['stack'].pop()
+            for i in range(k, len(ctx.events)):
+                if i not in st['ann']:
+                    st['ann'][i] = list(st['stack'])
+    it.e_CallExpr = e_CallExpr
     return it
+
+
+def outer_site(ctx, ev):
+    """(callee, line) of the outermost call in the explored function through which event ev was reached, or None"""
+    st = proc_state(ctx)
+    for i, e in enumerate(ctx.events):
+        if e is ev:
+            fr = st['ann'].get(i)
+            return fr[0] if fr else None
+    return None
 
 
 def calls_of(ctx, name=None):
